@@ -67,6 +67,9 @@ OvfReset(x) == TRUE            \* Java: clears the overflow flag of this worker 
 OvfSeen(x)  == FALSE           \* Java: was NaR produced / compared since the last reset?
 
 Q(n, d) == Norm(n, d)
+(* equality that is tolerant of values that left the range: used only by the specification's own sanity  *)
+(* properties, never to produce an expectation for the implementation                                     *)
+EqT(x, y) == IsNaR(x) \/ IsNaR(y) \/ x = y
 Gt(a, b) == Lt(b, a)
 Ge(a, b) == Le(b, a)
 IsZero(a) == a[1] = 0
